@@ -223,6 +223,10 @@ func getDebianCharWeight(r rune) int {
 	case 0:
 		return 0 // Null/missing character
 	default:
+		if !unicode.IsLetter(r) {
+			// Letters sort earlier than all non-letters (Debian Policy 5.6.12)
+			return int(r) + 256
+		}
 		return int(r) // Use Unicode value for other characters
 	}
 }
